@@ -15,7 +15,7 @@ From PTK Require Import Lib.Sx Lib.Py Model.C13_Utf8 Model.C13_HistFile Model.C1
   Proofs.C13_Utf8Facts Proofs.C13_HistFileFacts Proofs.C13_ThreadedFacts
   Proofs.C13_ThreadedF2Facts Proofs.C13_ThreadedF3Facts Proofs.C13_ThreadedLateFacts
   Proofs.C13_ComposeFacts Proofs.C13_InlineFacts Proofs.C13_ThreadedEvFacts
-  Proofs.C13_ThreadedFineFacts Proofs.C13_GrammarFacts Proofs.C13_FineTornFacts.
+  Proofs.C13_ThreadedFineFacts Proofs.C13_GrammarFacts Proofs.C13_FineTornFacts Proofs.C13_DamageFacts.
 Import ListNotations.
 Open Scope Z_scope.
 
@@ -370,9 +370,12 @@ Print Assumptions C13_skip_sched_patched.
    [vis gs i] = what the event-loop side sees of load() number i. *)
 
 (* Safety: every covered schedule (gok_sched = ok_sched of the coarse model for
-   load()/append_string; another instance's store anywhere except between the
-   first load() and the loader's reading).  A load() that has ended yielded
-   exactly the entries stored or being stored when it started, newest first;
+   load()/append_string; another instance's store at ANY moment - round 7: also
+   between the first load() and the loader's reading, where the entry is part
+   of what the loader reads and the ghost [c_start] of the load() calls already
+   waiting grows with it, [add_start]).  A load() that has ended yielded
+   exactly [c_start] = the entries stored or being stored when it started (plus
+   those other instances stored before the loader's read), newest first;
    one that has not, a prefix; once loaded the cache is everything this object
    knows of: what the loader read + its own appends ([own_view]: the real
    storage minus what other instances stored after the loader's read). *)
@@ -448,6 +451,29 @@ Theorem C13_fine_torn : forall (ts_of : str -> bytes),
 Proof. exact g_torn. Qed.
 Print Assumptions C13_fine_torn.
 
+(* ... and when somebody DOES store before the loader has read the torn file
+   (crash, restart, an entry accepted / another instance appending BEFORE the
+   background load reads; [gearly]: the loader's read comes after at least one
+   store): the record's leading "\n" closes the torn line, the abstract run
+   starts from S0 = rev (load_bytes (p ++ "\n")) = k completed entries + at
+   most one damaged string, and every ended load() yields (appended before its
+   start or before the loader's read, newest first) ++ (<= 1 damaged) ++ (the
+   k completed entries intact, in order).  With C13_fine_torn (nobody stores
+   before the read) this covers every schedule of stores around the read. *)
+Theorem C13_fine_torn_early : forall (ts_of : str -> bytes),
+  (forall s, nolf (ts_of s)) ->
+  forall rs0 p sfx sched,
+  Forall valid_rec rs0 -> p ++ sfx = file_of rs0 -> Forall glabel_valid sched ->
+  let S0 := rev (load_bytes (p ++ [NL])) in
+  gok_sched (ginit S0) sched = true -> gearly false (ginit S0) sched = true ->
+  exists k d, complete_in rs0 p k /\ (length d <= 1)%nat /\
+    (p = file_of (firstn k rs0) -> d = []) /\
+    fst (gcrun ts_of (ginit S0, p) sched) = grun (ginit S0) sched /\
+    (forall i c, vis (grun (ginit S0) sched) i = Some c -> c_fin c = true ->
+       exists tail, c_start c = S0 ++ tail /\ c_out c = rev tail ++ d ++ rev (firstn k (map snd rs0))).
+Proof. exact g_torn_early. Qed.
+Print Assumptions C13_fine_torn_early.
+
 (* ---- round 6: the file format as a grammar ----------------------------------------
    doc ::= item* ; item ::= junk line (LF-free bytes not starting with '+', then
    "\n": "# ..." comments, blank lines, foreign text, non-UTF-8 bytes) | entry
@@ -474,14 +500,40 @@ Theorem C13_torn_after_plus : forall rs ts,
 Proof. exact torn_after_plus. Qed.
 Print Assumptions C13_torn_after_plus.
 
+(* What exactly a torn write damages (round 7), EVERY cut offset: the k
+   completed entries come back intact and in order, and the at most one extra
+   string is a PREFIX ([spre]) of entry number k+1 - the one that was being
+   written: nothing foreign, no other entry touched.  (A cut inside a
+   multi-byte character gives U+FFFD as the last character, which the
+   loader's [:-1] drops together with the missing line feed.) *)
+Theorem C13_torn_damaged_prefix : forall rs p sfx,
+  Forall valid_rec rs -> p ++ sfx = file_of rs ->
+  exists k d, complete_in rs p k /\ load_bytes p = d ++ rev (firstn k (map snd rs)) /\
+    (d = [] \/ exists r s', nth_error rs k = Some r /\ d = [s'] /\ spre s' (snd r)).
+Proof. exact torn_damaged_prefix. Qed.
+Print Assumptions C13_torn_damaged_prefix.
+
+(* ... and once complete records are appended after the torn tail (the leading
+   "\n" of the first one closes the torn line): the new entries first, the k
+   completed entries intact and in order, between them at most one string - a
+   PREFIX of the entry that was being written, possibly followed by ONE U+FFFD
+   (cut inside a multi-byte character). *)
+Theorem C13_torn_then_append_damaged : forall rs rs2 p sfx,
+  Forall valid_rec rs -> Forall valid_rec rs2 -> rs2 <> [] -> p ++ sfx = file_of rs ->
+  exists k d, complete_in rs p k /\
+    load_bytes (p ++ file_of rs2) = rev (map snd rs2) ++ d ++ rev (firstn k (map snd rs)) /\
+    (d = [] \/ exists r s', nth_error rs k = Some r /\ spre s' (snd r) /\ (d = [s'] \/ d = [s' ++ [REPL]])).
+Proof. exact torn_then_append_damaged. Qed.
+Print Assumptions C13_torn_then_append_damaged.
+
 (* Non-vacuity of the fine system's hypothesis: own and foreign appends before
    the first load(), a read before the loader's snapshot, a foreign store and a
    second load() while the loader is inside its loops. *)
 Example C13_fine_sched_somewhere :
-  gok_sched (ginit [[97]])
-    [GIns [98]; GSto [98]; GOther [70]; GStart; GRead 0; GCont 0; GL; GL; GL; GStart; GOther [71]; GL; GL;
-     GRead 0; GL; GIns [99]; GCont 0; GSto [99]; GRead 1; GCont 1] = true.
-Proof. vm_compute. reflexivity. Qed.
+  let sched := [GIns [98]; GSto [98]; GOther [70]; GStart; GRead 0; GOther [72]; GCont 0; GL; GL; GL; GStart;
+                GOther [71]; GL; GL; GRead 0; GL; GIns [99]; GCont 0; GSto [99]; GRead 1; GCont 1] in
+  gok_sched (ginit [[97]]) sched = true /\ gearly false (ginit [[97]]) sched = true.
+Proof. vm_compute. auto. Qed.
 Print Assumptions C13_fine_sched_somewhere.
 
 (* Non-vacuity. *)
